@@ -346,6 +346,7 @@ func C08(items []Item, auth bool, cfgUser *string, cfgPw []byte) (vs []V, checke
 		var goods []*snref.Pkt
 		unknown := false // the first AUTH of the exchange (the awaited one, auth on) had an unknown method
 		nAuth := 0
+		var unknownItem Item
 		for _, it := range ex.Items {
 			if it.Kind == world.SNIn && it.SNErr == nil && it.SN != nil && it.SN.Type == snref.AUTH && it.delivered() {
 				nAuth++
@@ -355,6 +356,7 @@ func C08(items []Item, auth bool, cfgUser *string, cfgPw []byte) (vs []V, checke
 					}
 				} else if nAuth == 1 && auth {
 					unknown = true
+					unknownItem = it
 				}
 			}
 			if it.isMQ(world.MQOut, mqttref.CONNECT) {
@@ -398,7 +400,7 @@ func C08(items []Item, auth bool, cfgUser *string, cfgPw []byte) (vs []V, checke
 				}
 			}
 		}
-		if unknown && auth && !doomed(items, ex.Connect) {
+		if unknown && auth && !doomed(items, ex.Connect) && !doomed(items, unknownItem) {
 			checked++
 			got := false
 			for _, it := range ex.Items {
